@@ -43,7 +43,7 @@ EXPECT = {"nan": "NaN", "value": "a value", "either": "a value or NaN (weights a
 
 # ----------------------------------------------------------------------------- generators
 
-S_KINDS = ["identity", "diag", "diag_wide", "corr", "corr", "corr_wide"]
+S_KINDS = ["identity", "diag", "diag_wide", "corr", "corr", "corr_wide", "common"]
 X_KINDS = ["normal", "normal", "lognormal", "constant", "ties", "integers"]
 OBS_KINDS = ["inside", "inside", "member", "edge", "far", "veryfar"]
 
@@ -54,8 +54,10 @@ def gen_case(rng, k, thorough):
     else:
         n = rng.choice([1, 1, 2, 3, 5, 8, 13, 20, 40, 80, 150, 300])
     m = rng.choice([1, 1, 2, 2, 3, 4, 5, 7, 10])
+    if k % 7 == 3:
+        m = [3, 4, 6, 10][(k // 7) % 4]
     return {"id": k, "seed": rng.randrange(1 << 30), "n": n, "m": m, "unit": [1.0, 1.0, 3e-5, 1.0, 2e-4, 1e3][k % 6],
-            "skind": rng.choice(S_KINDS), "xkind": rng.choice(X_KINDS),
+            "skind": rng.choice(S_KINDS) if k % 7 != 3 else (rng.choice(S_KINDS) and "common"), "xkind": rng.choice(X_KINDS),
             "dups": rng.random() < 0.35, "nobs": 4 if n <= 300 else 3,
             "x2": sorted(set([-1.0, rng.choice([0.0, 0.1, 0.5, 2.0]), rng.choice([5.0, 10.0, 10.0, 30.0]),
                               rng.choice([100.0, 1e3, 1e6])]))}
@@ -72,7 +74,12 @@ def build(case):
         lam = 10.0 ** g.uniform(-1.5, 1.5, size=m)
     else:
         lam = 10.0 ** g.uniform(-3, 3, size=m)
-    if kind.startswith("corr") and m > 1:
+    if kind == "common":
+        # common-mode noise s^2 ((1 - rho) I + rho 1 1^T): correlated, with an (m - 1)-fold REPEATED eigenvalue (a general
+        # eigen-solver need not return an orthogonal basis of that eigenspace)
+        s2, rho = float(10.0 ** g.uniform(-1, 1)), float(g.choice([0.2, 0.5, 0.8, 0.95]))
+        S = s2 * ((1 - rho) * np.eye(m) + rho * np.ones((m, m)))
+    elif kind.startswith("corr") and m > 1:
         q, _ = np.linalg.qr(g.normal(size=(m, m)))
         S = (q * lam) @ q.T
         S = 0.5 * (S + S.T)
@@ -237,8 +244,20 @@ class Checker:
             return
         b = r[1]
         n, m = y.shape
+        complex_axis = False
         try:
-            pc1, pc1_e, proj = _real(b.pc1).astype(float), float(_real(b.pc1_e)), _real(b.pc1_proj).astype(float)
+            try:
+                pc1, pc1_e, proj = _real(b.pc1).astype(float), float(_real(b.pc1_e)), _real(b.pc1_proj).astype(float)
+            except ValueError:
+                # numpy.linalg.eig (the general solver BMCI uses) may return a complex-conjugate pair for a REPEATED
+                # eigenvalue of a symmetric matrix: the axis is then a complex vector whose real part is an eigenvector of
+                # norm <= 1.  The window stays a superset of the sound one ((d.a)^2 <= |a|^2 lam chi^2); the discrete
+                # bookkeeping model (real projections) is not applied to such an instance, every law on the estimates,
+                # the weights and the window (nothing relevant cut off) is.
+                complex_axis = True
+                pc1, pc1_e, proj = np.real(np.asarray(b.pc1)).astype(float), float(np.real(b.pc1_e)), np.real(np.asarray(b.pc1_proj)).astype(float)
+                self.ctx.cov.setdefault("complex_eigen_axis_instances", 0)
+                self.ctx.cov["complex_eigen_axis_instances"] += 1
             sinv64 = np.asarray(b.s_o_inv, dtype=float)
             bx, by, xinds = np.asarray(b.x, dtype=float), np.asarray(b.y, dtype=float), np.asarray(b.x_sorted_inds)
         except Exception as e:  # noqa
@@ -251,7 +270,7 @@ class Checker:
             self.fail("failing-input", "database-not-permuted",
                       "the stored database (x, y) is not a reordering of the entries given to BMCI()", cid)
             return
-        state_ok = True
+        state_ok = not complex_axis
         if np.any(np.diff(proj) < 0):
             state_ok = False
             self.fail("correspondence", "projection-unsorted", "pc1_proj is not ascending after __init__", cid)
@@ -264,7 +283,10 @@ class Checker:
         if resid > 64 * m * orc.kappa * EPS:
             self.fail("correspondence", "inverse-wrong", f"s_o_inv is not the inverse of s_o (residual {resid:.3g})", cid)
         eig_res = np.abs(S @ pc1 - pc1 / pc1_e).max() if pc1_e != 0 else math.inf
-        if abs(pc1 @ pc1 - 1) > 64 * m * EPS or eig_res > 256 * m * EPS * orc.lam_max * max(1.0, 1.0):
+        if complex_axis:
+            if pc1 @ pc1 > 1 + 64 * m * EPS:
+                self.fail("correspondence", "eigenpair-wrong", "the real part of the complex axis is longer than 1", cid)
+        elif abs(pc1 @ pc1 - 1) > 64 * m * EPS or eig_res > 256 * m * EPS * orc.lam_max * max(1.0, 1.0):
             self.fail("correspondence", "eigenpair-wrong",
                       f"(1/pc1_e, pc1) is not a unit eigenpair of s_o (residual {eig_res:.3g})", cid)
         xmin_db, xmax_db = xw_bounds(x)
